@@ -56,8 +56,23 @@ def sc_gmm_mstep(B, C, D, trainer, um, uv, uw, zero=None, alpha=None):
         B.assume(SP["n"][zero] == 0) if B.sym else None
         if not B.sym:
             raise AssumptionFailed()
-    gmm.m_step([s], m)
     o = Outcome()
+    if trainer == "map" and uw and B.sym:
+        # each un-normalised MAP weight is positive (alpha < 1, prior weight > 0): proved first, then
+        # available to show that the normaliser is not zero
+        n, t = SP["n"], SP["t"]
+        if alpha is None:
+            al = [n[c] / (n[c] + m.map_relevance_factor) for c in range(C)]
+        elif alpha == "array":
+            al = [av[c] for c in range(C)]
+            for c in range(C):
+                B.assume(av[c] < 1)
+        else:
+            al = [av for c in range(C)]
+            B.assume(av < 1)
+        for c in range(C):
+            o.lemma("raw-weight-positive-%d" % c, al[c] * n[c] / t + (1 - al[c]) * MP["w"][c] > 0)
+    gmm.m_step([s], m)
     o.fin("finite/means", m.means)
     o.fin("finite/variances", m.variances)
     o.fin("finite/weights", m.weights)
